@@ -20,7 +20,8 @@ def sh(cmd, timeout=3600, env=None):
     e = dict(os.environ)
     if env:
         e.update(env)
-    p = subprocess.run(cmd, shell=True, capture_output=True, text=True, timeout=timeout, env=e)
+    os.makedirs("/tmp/confirm_cwd", exist_ok=True)  # demos may drop files into the current directory
+    p = subprocess.run(cmd, shell=True, capture_output=True, text=True, timeout=timeout, env=e, cwd="/tmp/confirm_cwd")
     return p.returncode, (p.stdout + p.stderr)
 
 
